@@ -1,0 +1,29 @@
+//go:build !verif
+
+package reflect
+
+import "unsafe"
+
+// Verification hooks (build tag "verif"). With the tag off these are empty and
+// inline away; see verif_on.go.
+
+const (
+	verifPoolDecoder = iota
+	verifPoolBitset
+	verifPoolUnknown
+	verifPoolMapTmp
+	verifPoolRV
+)
+
+const (
+	verifYieldBeforeLock = iota
+	verifYieldBetweenSets
+	verifYieldAfterCacheInsert
+	verifYieldBeforeStore
+)
+
+func verifPoolGet(kind int, obj unsafe.Pointer, t *tType) {}
+
+func verifSpanMalloc(s *span, ret unsafe.Pointer, n, align int) {}
+
+func verifYield(point int) {}
